@@ -24,12 +24,12 @@ type LabelExec struct {
 	Prop    string
 	MaxDown int
 	// ids handed out by the server, in issue order (C12)
-	AllocLabels []uint64
-	MutIDs      []uint64
+	AllocLabels  []uint64
+	MutIDs       []uint64
 	Repositioned bool // an administrator moved the label counter (set-nextlabel)
 	NoSettle     bool // issue mutations without waiting for background work (C14 idle clause)
-	labelCtr    uint64
-	Skipped     int
+	labelCtr     uint64
+	Skipped      int
 }
 
 func NewLabelExec(w *drv.World, prop string) *LabelExec {
